@@ -8,6 +8,7 @@ vars == <<sc, pc, fd, yielded, out, warned, opened>>
 \* sc = [many, sel, frames : Seq({"ok","bad","cut"}), cutWarns : BOOLEAN, discardAfter : 0..n]
 \*   "cut" may only be the last frame; cutWarns: the format documents a warning for a cut last frame
 \*   discardAfter = k > 0: the consumer drops the frame iterator after k frames
+\*   neverStarted: the consumer drops the frame iterator without ever asking for a frame
 SelKinds == {"match", "nomatch", "explicit", "unknown", "unsupported"}
 Init0 == pc = "start" /\ fd = FALSE /\ yielded = 0 /\ out = "none" /\ warned = FALSE /\ opened = FALSE
 Done(o) == pc' = "done" /\ out' = o
@@ -19,7 +20,7 @@ Select ==
 OpenR == pc = "open" /\ fd' = TRUE /\ opened' = TRUE /\ pc' = "parse" /\ UNCHANGED <<sc, yielded, out, warned>>
 \* the reader works on frame yielded+1
 Parse ==
-  /\ pc = "parse"
+  /\ pc = "parse" /\ ~sc.neverStarted
   /\ LET i == yielded + 1 IN
      IF i > Len(sc.frames) THEN          \* clean end of file at a frame boundary
         /\ pc' = "closing" /\ UNCHANGED <<sc, fd, yielded, warned, opened>>
@@ -34,8 +35,12 @@ Parse ==
 Resume == pc = "yielded" /\ sc.discardAfter # yielded /\ pc' = "parse" /\ UNCHANGED <<sc, fd, yielded, out, warned, opened>>
 Discard == pc = "yielded" /\ sc.discardAfter = yielded /\ pc' = "closing" /\ out' = "discarded"
            /\ UNCHANGED <<sc, fd, yielded, warned, opened>>
+\* an iterator that is dropped before its first frame: whatever was opened so far is closed
+DiscardUnstarted == /\ sc.neverStarted /\ sc.many /\ yielded = 0 /\ pc \in {"open", "parse"}
+                    /\ out' = "discarded" /\ pc' = (IF fd THEN "closing" ELSE "done")
+                    /\ UNCHANGED <<sc, fd, yielded, warned, opened>>
 CloseR == pc = "closing" /\ fd' = FALSE /\ pc' = "done" /\ UNCHANGED <<sc, yielded, out, warned, opened>>
-Next == Select \/ OpenR \/ Parse \/ Resume \/ Discard \/ CloseR
+Next == Select \/ OpenR \/ Parse \/ Resume \/ Discard \/ DiscardUnstarted \/ CloseR
 (* properties: C07 / C13 load side *)
 NoLeakedFd == pc = "done" => ~fd
 FormatErrorTouchesNothing == out = "FileFormatError" => ~opened
